@@ -9,6 +9,7 @@ From Coq Require Import ZArith List Bool QArith Lia.
 Import ListNotations.
 Require Import PV.Base.Ops PV.Model.Relax PV.Model.RelaxChk PV.Proofs.RelaxChkProofs.
 Require Import PV.Model.GraphAlg PV.Model.Split PV.Model.SplitChk PV.Proofs.GraphSpec PV.Proofs.GraphBounded PV.Proofs.SplitBounded PV.Proofs.SplitChkBounded.
+Require Import PV.Model.Aggregate PV.Model.AggChk PV.Proofs.AggChkBounded.
 Open Scope Z_scope.
 
 Theorem C17_gauss_seidel_stays_in_bounds :
@@ -48,6 +49,15 @@ Theorem C17_bounded_rs_splitting_stays_in_bounds : forall p, In p all_patterns -
 Proof. exact bounded_rs_chk. Qed.
 Print Assumptions C17_bounded_rs_splitting_stays_in_bounds.
 
+(* sentinel arithmetic of the aggregation kernels (-n marks isolated nodes, negative ids mark
+   pass-2 attachments; x and y have n entries): bounded to all symmetric graphs on <= 4 vertices *)
+Theorem C17_bounded_standard_aggregation_stays_in_bounds : forall g, In g graphs_le4 -> ok_std_chk g = true.
+Proof. exact bounded_std_chk. Qed.
+Print Assumptions C17_bounded_standard_aggregation_stays_in_bounds.
+Theorem C17_bounded_naive_aggregation_stays_in_bounds : forall g, In g graphs_le4 -> ok_naive_chk g = true.
+Proof. exact bounded_naive_chk. Qed.
+Print Assumptions C17_bounded_naive_aggregation_stays_in_bounds.
+
 (* non-vacuity: a valid 3x3 matrix with an empty row, a missing diagonal and unsorted columns *)
 Example C17_wf_inhabited :
   wf 3 4 [0; 2; 2; 4] [2; 0; 1; 0] [1; 2; 3; 4]%Z [0; 0; 0]%Z [1; 1; 1]%Z.
@@ -63,3 +73,5 @@ Proof. vm_compute. reflexivity. Qed.
 Example C17_rs_chk_detects_bad_column :
   rs_cf_splitting_chk 2 [0; 1; 2] [1; 2] [0; 1; 2] [1; 0] [0; 0] = None.
 Proof. exact rs_chk_detects_bad_index. Qed.
+Example C17_std_chk_detects_short_y : standard_aggregation_chk 2 [0; 1; 2] [1; 0] [] = None.
+Proof. exact std_chk_detects_short_y. Qed.
